@@ -107,7 +107,7 @@ func (w *worker) productCase(c Case, maxLen int) {
 					oneRun = false
 				}
 			}
-			n, vc, class := w.runGenHistory(c, src, h, false, oneRun)
+			n, vc, class := w.runGenHistory(c, src, h, stackCaps[a%len(stackCaps)], oneRun)
 			r.Transitions(int64(n))
 			r.States(1)
 			if vc != nil {
